@@ -36,7 +36,7 @@ theorem inv_init (F : Facts) : Inv F St.init := by
 
 theorem step_inv {F : Facts} (hF : F.Good) (needAll : Bool) {s s' : St} {e : Ev}
     (hI : Inv F s) (h : step F needAll s e = some s') : Inv F s' := by
-  obtain ⟨hR, hP, hX, hC⟩ := hF
+  obtain ⟨hR, hP, hX, hC, hE⟩ := hF
   obtain ⟨h1, h2, h3, h4, h5⟩ := hI
   cases e with
   | submit ts =>
@@ -71,7 +71,7 @@ theorem step_inv {F : Facts} (hF : F.Good) (needAll : Bool) {s s' : St} {e : Ev}
             refine List.Perm.trans ?_ this
             simp [List.append_assoc]
           · intro t' ht'; cases ht'
-  | finish t =>
+  | finish t err =>
     simp only [step] at h
     split at h
     · rename_i hmem
@@ -115,7 +115,7 @@ theorem step_inv {F : Facts} (hF : F.Good) (needAll : Bool) {s s' : St} {e : Ev}
         split at h
         · cases h
         · rename_i t ch' hch
-          simp only [hR, if_true, Option.some.injEq] at h
+          simp only [hR, hE, Bool.true_or, Bool.and_true, if_true, Option.some.injEq] at h
           subst h
           refine ⟨?_, ?_, ?_, ?_, ?_⟩
           · simp only [hch, List.length_cons] at h1; simp only; omega
@@ -167,10 +167,49 @@ theorem run_append {F : Facts} {needAll : Bool} :
       simp only [hs] at h1 ⊢
       exact run_append es h1 h2
 
+theorem run_one {F : Facts} {needAll : Bool} {s s' : St} {e : Ev}
+    (h : step F needAll s e = some s') : run F needAll s [e] = some s' := by
+  simp only [run, h]
+
 theorem reachable_run {F : Facts} {needAll : Bool} {s s' : St} {evs : List Ev}
     (h : Reachable F needAll s) (hr : run F needAll s evs = some s') : Reachable F needAll s' := by
   obtain ⟨e0, h0⟩ := h
   exact ⟨e0 ++ evs, run_append e0 h0 hr⟩
+
+/-! ### collecting an execution that ended with an error -/
+
+/-- With the good facts every receive — of an execution with or without error — leaves the
+    collector in its re-fill window (the early return `if ta.err != nil` comes after the
+    re-fill), and hands out the head of the channel. -/
+theorem recv_opens_window {F : Facts} (hF : F.Good) (needAll : Bool) {s s' : St}
+    (h : step F needAll s .recv = some s') :
+    s'.coll = .window ∧ ∃ t, s.ch.head? = some t ∧ s'.got = s.got ++ [t] ∧ s'.errs = s.errs := by
+  obtain ⟨hR, _, _, _, hE⟩ := hF
+  simp only [step] at h
+  split at h
+  · cases h
+  · split at h
+    · cases h
+    · split at h
+      · cases h
+      · rename_i t ch' hch
+        simp only [hR, hE, Bool.true_or, Bool.and_true, if_true, Option.some.injEq] at h
+        subst h
+        exact ⟨rfl, t, by simp [hch], rfl, rfl⟩
+
+/-- the re-fill that follows re-establishes the hand-off: afterwards nothing waits in the
+    list while the channel is empty -/
+theorem refill_after_recv {F : Facts} (hF : F.Good) (needAll : Bool) {s : St} (hI : Inv F s)
+    (hw : s.coll = .window) :
+    ∃ s2, step F needAll s .refill = some s2 ∧ s2.coll = .idle ∧ (s2.l ≠ [] → s2.ch ≠ []) := by
+  let p := updateChan F.doneCap s.l s.ch
+  refine ⟨{ s with l := p.1, ch := p.2, coll := .idle }, by simp [step, hw, p], rfl, ?_⟩
+  intro hl hch
+  have hfull := updateChan_full hI.cap hl
+  have hc : 1 ≤ F.doneCap := hF.2.2.2.1
+  simp only [p] at hch
+  simp [hch] at hfull
+  omega
 
 /-! ### progress -/
 
@@ -181,7 +220,7 @@ theorem inv_progress {F : Facts} (hF : F.Good) (needAll : Bool) {s : St} (hI : I
     (s.coll = .idle ∧ (step F needAll s .recv).isSome = true) ∨
     (s.coll = .window ∧ ∃ s1, step F needAll s .refill = some s1 ∧ s1.coll = .idle ∧
         (step F needAll s1 .recv).isSome = true) := by
-  obtain ⟨hR, hP, hX, hC⟩ := hF
+  obtain ⟨hR, hP, hX, hC, hE⟩ := hF
   have hI' := hI
   obtain ⟨h1, h2, h3, h4, h5⟩ := hI
   have hq : s.l.length + s.ch.length ≠ 0 := by
@@ -225,7 +264,7 @@ theorem step_measure {F : Facts} (needAll : Bool) {s s' : St} {e : Ev}
     (hns : e.isSubmit = false) (h : step F needAll s e = some s') : measure s' < measure s := by
   cases e with
   | submit ts => simp [Ev.isSubmit] at hns
-  | finish t =>
+  | finish t err =>
     simp only [step] at h
     split at h
     · rename_i hmem
@@ -252,12 +291,13 @@ theorem step_measure {F : Facts} (needAll : Bool) {s s' : St} {e : Ev}
       · rename_i hnum
         split at h
         · cases h
-        · simp only [Option.some.injEq] at h
+        · rename_i t ch' hch
+          simp only [Option.some.injEq] at h
           subst h
           simp only [measure, hidle']
-          by_cases hR : F.waitOneRefills = true
-          · simp [hR]; omega
-          · simp [hR]; omega
+          by_cases hc : (F.waitOneRefills && (F.refillOnErrorPath || !s.errs.contains t)) = true
+          · simp only [hc, if_true]; simp; omega
+          · simp only [hc]; simp; omega
   | refill =>
     simp only [step] at h
     split at h
